@@ -88,7 +88,7 @@ PIPE_RULE = (
     "non-trivial = set at some index by a function, program, aggregation or skip window, calibration factor != 1, or clipped at a limit"
 )
 RULE = RULE + PIPE_RULE
-EXPECTED_BRANCHES += ["ratio.dynamic+output", "ratio.output-only", "ratio.dynamic-only", "ratio.numerator_near_tolerance", "ratio.numerator_ordinary"]
+EXPECTED_BRANCHES += ["allrow.scenario", "allrow.insert", "ratio.dynamic+output", "ratio.output-only", "ratio.dynamic-only", "ratio.numerator_near_tolerance", "ratio.numerator_ordinary"]
 EXPECTED_BRANCHES += [
     "stage.data", "stage.data.transfer", "stage.function.dynamic", "stage.function.precompute", "stage.function.postcompute", "stage.aggregation",
     "stage.skip.dynamic", "stage.skip.precompute", "stage.skip.postcompute", "stage.program.number", "stage.program.pertime", "stage.program.other",
@@ -659,10 +659,55 @@ def run_ratio_function(ctx):
             ctx.violation(key, f"{variant}, initial c0={c0!r} c1={c1!r}: {bad}", {"kind": "ratio_function", "spec": spec, "k": k})
 
 
+def run_all_row(ctx):
+    """'The value of every parameter at every simulation time is the databook series ... multiplied by the population's ... calibration factors': a parameter
+    entered with one databook row "All" gives every population its own copy of that series. Editing one population of the ParameterSet (a parameter scenario,
+    or `ts[pop].insert`) must leave the other populations on databook x calibration factors."""
+    import atomica as at
+    from vlib import genfw
+
+    r = ctx.rng
+    P = dict(timescale=None, function=None, min=None, max=None, timed=False, targetable=False, databook=True)
+    for i in range(ctx.n(6, 60)):
+        pops = ["pa", "pb", "pc"][: r.choice([2, 3])]
+        v = r.choice([0.1, 0.25, 0.4])
+        yf = {p: r.choice([1.0, 0.8, 1.25]) for p in pops}
+        spec = {"comps": [{"name": "c0", "kind": "normal", "databook": True, "init": {p: 100.0 for p in pops}}, {"name": "c1", "kind": "normal", "databook": True, "init": {p: 10.0 for p in pops}}],
+                "characs": [], "pars": [dict(P, name="ra0", format="rate", value={p: v for p in pops}, all_row=True)],
+                "transitions": [["c0", "c1", "ra0"]], "pops": pops, "transfers": [], "interactions": [], "settings": [2000, 2004, 1.0], "y_factors": {"ra0": yf}}
+        how = r.choice(["scenario", "insert"]) if i >= 2 else ["scenario", "insert"][i]
+        key = {"api": "ParameterSet", "oracle": "all-row", "how": how}
+        try:
+            fw, data, parset, settings = genfw.build(spec)
+            assert list(data.tdve["ra0"].ts.keys()) == ["All"]
+            ps2 = at.ParameterSet(fw, data, "edited")
+            for p in pops:
+                ps2.pars["ra0"].y_factor[p] = yf[p]
+            edited, newv = pops[0], 0.9
+            if how == "scenario":
+                ps2 = params_corr.apply_scenarios([{"par": "ra0", "pop": edited, "t": [2002], "y": [newv], "interp": "previous"}], ps2, fw, settings)
+            else:
+                ps2.pars["ra0"].ts[edited].insert(2002, newv)
+            m = at.Model(settings, fw, ps2); m.process()
+        except Exception as ex:
+            ctx.brk("correspondence", f"all-row model could not be run: {type(ex).__name__}: {str(ex)[:200]}", case=key, spec=spec)
+            continue
+        ctx.count("allrow." + how)
+        ctx.case({**key, "pops": len(pops), "v": v, "yf": yf}, nontrivial=True, sample={"pops": pops, "how": how})
+        for k_, p in enumerate(pops[1:], start=1):
+            got = [float(x) for x in m.pops[k_].get_par("ra0").vals]
+            want = v * yf[p]
+            if any(abs(g - want) > 1e-12 * max(1.0, abs(want)) for g in got):
+                ctx.violation(key, f"population {p} entered through the databook row 'All' (value {v}, calibration factor {yf[p]}): after a {how} on population {edited} only, its values are {got} instead of {want!r} at every time",
+                              {"kind": "all_row", "spec": spec, "how": how})
+                break
+
+
 def run(ctx):
     run_series(ctx)
     run_init_scaled(ctx)
     run_ratio_function(ctx)
+    run_all_row(ctx)
     params_corr.run_params(ctx, PROPERTY)
 
 
@@ -670,6 +715,9 @@ def replay(ctx, data):
     rp = data["replay"]
     if rp.get("kind") == "init_scaled":
         print("spec:", rp["spec"]); print("re-run: vlib.genfw.build(spec) with numpy.linalg.lstsq wrapped; compare b with databook x y_factor x meta_y_factor (x denominator)")
+        return 0
+    if rp.get("kind") == "all_row":
+        print("spec:", rp["spec"], "how:", rp["how"]); print("re-run: props/c06.run_all_row (build, edit population", rp["spec"]["pops"][0], "only, compare the others with databook x calibration factor)")
         return 0
     if rp.get("kind") == "ratio_function":
         from vlib import genfw
